@@ -307,10 +307,10 @@ theorem C20_missing_clean (w : World) (st : St) (iface : ClassId) (r : Ref) (ord
 alias and an unknown qualified name -/
 example :
     let w : World :=
-      [ (⟨0, none⟩, ⟨[], [⟨⟨⟨0, none⟩, 0⟩, none, true, [], [⟨1, none⟩, ⟨2, none⟩]⟩]⟩),
+      [ (⟨0, none⟩, ⟨[], [⟨⟨⟨0, none⟩, 0⟩, none, true, false, [], [⟨1, none⟩, ⟨2, none⟩]⟩]⟩),
         (⟨1, none⟩, ⟨[5], []⟩), (⟨2, none⟩, ⟨[], []⟩),
-        (⟨1, some 5⟩, ⟨[], [⟨⟨⟨1, some 5⟩, 1⟩, some 5, false, [⟨⟨0, none⟩, 0⟩], []⟩]⟩),
-        (⟨2, some 6⟩, ⟨[], [⟨⟨⟨2, some 6⟩, 1⟩, some 6, false, [⟨⟨0, none⟩, 0⟩], []⟩]⟩) ]
+        (⟨1, some 5⟩, ⟨[], [⟨⟨⟨1, some 5⟩, 1⟩, some 5, false, false, [⟨⟨0, none⟩, 0⟩], []⟩]⟩),
+        (⟨2, some 6⟩, ⟨[], [⟨⟨⟨2, some 6⟩, 1⟩, some 6, false, false, [⟨⟨0, none⟩, 0⟩], []⟩]⟩) ]
     let st := runImports w St.empty [⟨0, none⟩]
     worldClean w = true ∧ (getBank ⟨⟨0, none⟩, 0⟩ st.banks).paths.all (fun p => importable w p.mod) = true ∧
       (get w st ⟨⟨0, none⟩, 0⟩ (.alias 7) [⟨1, none⟩, ⟨2, none⟩]).2 = .error .missing ∧
@@ -327,10 +327,10 @@ theorem C20_lookup_order_free (w : World) (st : St) (iface : ClassId) (r : Ref) 
 /-- the world of the (fixed) finding C20-F1: interface `Base(path=[pk1, pk2])` in module 0, `pk1/dup.py` and
 `pk2/dup.py` each defining a concrete class with alias `dup` (= 5) -/
 def witnessWorld : World :=
-  [ (⟨0, none⟩, ⟨[], [⟨⟨⟨0, none⟩, 0⟩, none, true, [], [⟨1, none⟩, ⟨2, none⟩]⟩]⟩),
+  [ (⟨0, none⟩, ⟨[], [⟨⟨⟨0, none⟩, 0⟩, none, true, false, [], [⟨1, none⟩, ⟨2, none⟩]⟩]⟩),
     (⟨1, none⟩, ⟨[], []⟩), (⟨2, none⟩, ⟨[], []⟩),
-    (⟨1, some 5⟩, ⟨[], [⟨⟨⟨1, some 5⟩, 1⟩, some 5, false, [⟨⟨0, none⟩, 0⟩], []⟩]⟩),
-    (⟨2, some 5⟩, ⟨[], [⟨⟨⟨2, some 5⟩, 1⟩, some 5, false, [⟨⟨0, none⟩, 0⟩], []⟩]⟩) ]
+    (⟨1, some 5⟩, ⟨[], [⟨⟨⟨1, some 5⟩, 1⟩, some 5, false, false, [⟨⟨0, none⟩, 0⟩], []⟩]⟩),
+    (⟨2, some 5⟩, ⟨[], [⟨⟨⟨2, some 5⟩, 1⟩, some 5, false, false, [⟨⟨0, none⟩, 0⟩], []⟩]⟩) ]
 
 def witnessState : St :=
   match importMod witnessWorld St.empty ⟨0, none⟩ with
@@ -411,12 +411,12 @@ theorem C20_import_order_free (w : World) (ms ms' : List Mod) (hp : ms.Perm ms')
 imported in two orders from a fresh process — both succeed, and the representations of the two states differ -/
 example :
     let w : World :=
-      [ (⟨0, none⟩, ⟨[], [⟨⟨⟨0, none⟩, 0⟩, none, true, [], [⟨1, none⟩, ⟨2, none⟩]⟩]⟩),
+      [ (⟨0, none⟩, ⟨[], [⟨⟨⟨0, none⟩, 0⟩, none, true, false, [], [⟨1, none⟩, ⟨2, none⟩]⟩]⟩),
         (⟨1, none⟩, ⟨[5], []⟩), (⟨2, none⟩, ⟨[], []⟩),
-        (⟨1, some 5⟩, ⟨[], [⟨⟨⟨1, some 5⟩, 1⟩, some 5, false, [⟨⟨0, none⟩, 0⟩], []⟩]⟩),
-        (⟨1, some 7⟩, ⟨[], [⟨⟨⟨1, some 7⟩, 2⟩, none, true, [⟨⟨0, none⟩, 0⟩], [⟨3, none⟩]⟩,
-                            ⟨⟨⟨1, some 7⟩, 1⟩, some 7, false, [⟨⟨1, some 7⟩, 2⟩, ⟨⟨0, none⟩, 0⟩], []⟩]⟩),
-        (⟨2, some 6⟩, ⟨[], [⟨⟨⟨2, some 6⟩, 1⟩, some 6, false, [⟨⟨0, none⟩, 0⟩], []⟩]⟩) ]
+        (⟨1, some 5⟩, ⟨[], [⟨⟨⟨1, some 5⟩, 1⟩, some 5, false, false, [⟨⟨0, none⟩, 0⟩], []⟩]⟩),
+        (⟨1, some 7⟩, ⟨[], [⟨⟨⟨1, some 7⟩, 2⟩, none, true, false, [⟨⟨0, none⟩, 0⟩], [⟨3, none⟩]⟩,
+                            ⟨⟨⟨1, some 7⟩, 1⟩, some 7, false, false, [⟨⟨1, some 7⟩, 2⟩, ⟨⟨0, none⟩, 0⟩], []⟩]⟩),
+        (⟨2, some 6⟩, ⟨[], [⟨⟨⟨2, some 6⟩, 1⟩, some 6, false, false, [⟨⟨0, none⟩, 0⟩], []⟩]⟩) ]
     let ms : List Mod := [⟨0, none⟩, ⟨1, some 5⟩, ⟨1, some 7⟩, ⟨2, some 6⟩]
     let ms' : List Mod := [⟨0, none⟩, ⟨2, some 6⟩, ⟨1, some 7⟩, ⟨1, some 5⟩]
     ms.Perm ms' ∧ (importAll w St.empty ms).isSome = true ∧ (importAll w St.empty ms').isSome = true ∧
@@ -439,10 +439,10 @@ example :
 
 /-- non-vacuity of `C20_bank_order` / `C20_collision_rejected`: an abstract intermediate, two aliased concrete classes -/
 example :
-    let mid : ClassDef := ⟨⟨⟨0, none⟩, 1⟩, none, true, [⟨⟨0, none⟩, 0⟩], []⟩
-    let a : ClassDef := ⟨⟨⟨1, some 5⟩, 1⟩, some 5, false, [⟨⟨0, none⟩, 1⟩, ⟨⟨0, none⟩, 0⟩], []⟩
-    let b : ClassDef := ⟨⟨⟨2, some 6⟩, 1⟩, some 6, false, [⟨⟨0, none⟩, 0⟩], []⟩
-    let b' : ClassDef := ⟨⟨⟨2, some 6⟩, 1⟩, some 5, false, [⟨⟨0, none⟩, 0⟩], []⟩
+    let mid : ClassDef := ⟨⟨⟨0, none⟩, 1⟩, none, true, false, [⟨⟨0, none⟩, 0⟩], []⟩
+    let a : ClassDef := ⟨⟨⟨1, some 5⟩, 1⟩, some 5, false, false, [⟨⟨0, none⟩, 1⟩, ⟨⟨0, none⟩, 0⟩], []⟩
+    let b : ClassDef := ⟨⟨⟨2, some 6⟩, 1⟩, some 6, false, false, [⟨⟨0, none⟩, 0⟩], []⟩
+    let b' : ClassDef := ⟨⟨⟨2, some 6⟩, 1⟩, some 5, false, false, [⟨⟨0, none⟩, 0⟩], []⟩
     collisionFree [mid, a, b] = true ∧ collisionFree [mid, a, b'] = false ∧
       (match addAll Bank.empty [b', mid, a] with
         | .error .collision => true
